@@ -118,6 +118,31 @@ def muts : List Step → List Mut
 /-- the record after a list of mutations -/
 def stateAfter (d : RD) (ms : List Mut) : RD := ms.foldl applyMut d
 
+/-- one `name=value` part of `repr` for a relative field (shown when non-zero) -/
+def relPart (name : String) (v : Int) : List String := if v ≠ 0 then [name ++ "=" ++ RDPy.fmtPlusG v] else []
+
+/-- one part for an absolute field (shown when not None) -/
+def absPart (name : String) (v : Option Int) : List String :=
+  match v with
+  | some x => [name ++ "=" ++ RDPy.reprInt x]
+  | none => []
+
+/-- `repr(self)` (lines 584-597): the non-zero relative fields with an explicit sign (`+g`: six significant digits), then
+    the absolute fields that are set, in source order; `wdRepr` is `weekday.__repr__` (it can raise IndexError) -/
+def reprOf (wdRepr : WdPy.Wd → Py.R String) (d : RD) : Py.R String :=
+  let head := relPart "years" d.years ++ relPart "months" d.months ++ relPart "days" d.days ++
+    relPart "leapdays" d.leapdays ++ relPart "hours" d.hours ++ relPart "minutes" d.minutes ++
+    relPart "seconds" d.seconds ++ relPart "microseconds" d.microseconds ++
+    absPart "year" d.year ++ absPart "month" d.month ++ absPart "day" d.day
+  let tail := absPart "hour" d.hour ++ absPart "minute" d.minute ++ absPart "second" d.second ++
+    absPart "microsecond" d.microsecond
+  match d.weekday with
+  | none => .ok ("relativedelta" ++ "(" ++ String.intercalate ", " (head ++ tail) ++ ")")
+  | some w =>
+    match wdRepr w with
+    | .error e => .error e
+    | .ok s => .ok ("relativedelta" ++ "(" ++ String.intercalate ", " (head ++ ["weekday" ++ "=" ++ s] ++ tail) ++ ")")
+
 /-- constructor-reachable records: what `relativedelta(**kw)` / the operators can return -/
 def Reachable (d : RD) : Prop := Normalised d
 
